@@ -8,7 +8,7 @@ ALLOWED_AXIOMS = set()
 EXHAUSTIVE = True
 SHRINK = False
 MANIFEST = {
-    "text": "Coq theorems about a model of Matcher::new / to_glob_string, of glob matching at segment level and of the selection done by v1 Get, v1 Subscribe and v2 ListMetadata (incl. the branch fallback): everything selected lies inside the liberal reading of the pattern (soundness), every signal in the strict documented reading is selected for patterns that do not mix '**' with '*' (completeness), the empty pattern selects everything, invalid patterns are rejected with nothing returned. Tied to the code on every run by an exhaustive sweep: every pattern up to length 3/4 over {A,B,Ab,*,**} x every prefix-free tree of a bounded universe, through the three real handlers (v1 Get also as a two-entry request, the pattern after an anchor path that matches, so that entries of one request are answered independently) and the raw Matcher, plus a character-level validity stream; the liberal/strict inclusions are re-checked on the implementation's own answers by an independent Python oracle.",
+    "text": "Coq theorems about a model of Matcher::new / to_glob_string, of glob matching at segment level and of the selection done by v1 Get, v1 Subscribe and v2 ListMetadata (incl. the branch fallback): everything selected lies inside the liberal reading of the pattern (soundness), every signal in the strict documented reading is selected for patterns that do not mix '**' with '*' (completeness), the empty pattern selects everything, invalid patterns are rejected with nothing returned. Tied to the code on every run by an exhaustive sweep: every pattern up to length 3/4 over {A,B,Ab,*,**} x every prefix-free tree of a bounded universe, through the three real handlers (v1 Get also as a two-entry request, the pattern after an anchor path that matches, so that entries of one request are answered independently) and the raw Matcher, plus a character-level validity stream; the liberal/strict inclusions are re-checked on the implementation's own answers by an independent Python oracle. A second known finding (F30): a signal name containing a slash collides with its dotted look-alike in the glob form of paths; the case `slash` of the family exhibits it on every run (KNOWN-FINDING), Model/Glob.v does not translate such names.",
     "note": "Trusted: Coq kernel (axiom-free theorems); extraction + OCaml driver (vm_compute cross-check); harness/src/fam_glob.rs. Modelled, not verified: the glob-match 0.2.1 crate (its behaviour on the supported fragment is compared exhaustively; for patterns mixing '**' and '*' the model only over-approximates it and only the two inclusions are asserted), the regex crate.",
     "technique": "machine-checked proof in Coq + exhaustive bounded-universe differential correspondence",
 }
@@ -99,6 +99,15 @@ def generate(rng, tier):
         lines.append([api] + E.s("A." + "B" * 995))
         lines.append([api] + E.s("A." + "B" * 1010))
     cases.append(("valid", lines))
+    # a signal whose NAME contains a slash (a legal path segment) beside its dotted look-alike: the glob form of a path
+    # uses `/` as its separator, so the two collide (finding F30); Model/Glob.v does not translate such names, the
+    # case is judged by the monitor only
+    t = ["X.K/h", "X.K.h", "X.L"]
+    lines = [[len(t)] + sum([E.s(p) for p in t], [])]
+    for p in ("X.K.h", "X.L", "X", "X.*", "X.K"):
+        for api in (0, 1, 2):
+            lines.append([api] + E.s(p))
+    cases.append(("slash", lines))
     return cases
 
 
@@ -156,6 +165,8 @@ def compare(lines, m, i):
     if m is None or i is None or len(m) != len(i):
         return False
     paths, reqs = parse(lines)
+    if any("/" in p for p in paths):
+        return True
     for (api, pat), a, b in zip(reqs, m[1:], i[1:]):
         ps = pat.split(".")
         if "*" in ps and "**" in ps and len(a) >= 2 and len(b) >= 2:
@@ -213,6 +224,14 @@ def classify(lines, out, msg, known):
     for kf in known:
         m = kf.get("match", {})
         if m.get("clause") and not msg.startswith(m["clause"]):
+            continue
+        if m.get("slash_in_name"):
+            # outside-liberal where every signal returned beyond the reading has a slash in its name
+            import re
+            mm = re.match(r"outside-liberal: api \d pattern '[^']*' returned \[(.*)\]", msg) or \
+                re.match(r"strict-missing: api \d pattern '[^']*' on tree \[.*?\] did not return \[(.*)\] \(status", msg)
+            if mm and all("/" in x for x in re.findall(r"'([^']*)'", mm.group(1))):
+                return kf
             continue
         if m.get("single_segment_leaf"):
             # strict-missing where the pattern is a single name that is itself a leaf of the tree
